@@ -187,7 +187,8 @@ def run(ctx, rep):
                 ptr_e = strip_deref_calls(sl[0][3][0])
                 len_e = strip_deref_calls(sl[0][3][1])
                 data_name = F.data_field[1] if F.data_field else "data"
-                if (len_e[0] == "proj" and ptr_e[0] == "proj" and len_e[1] == ptr_e[1] and ptr_e[2][-1:] == ("ptr",)
+                thin_field = ptrclass.Norm(F).handle_ptr_fields.get("ThinArc")
+                if (len_e[0] == "proj" and ptr_e[0] == "proj" and len_e[1] == ptr_e[1] and ptr_e[2][-1:] == (thin_field,)
                         and tuple(len_e[2]) == tuple(ptr_e[2]) + (data_name, "header", "length")):
                     ok = True
                 else:
@@ -207,8 +208,9 @@ def run(ctx, rep):
                         rep.bad("R-THICK", b["key"] + " uses the helper", "%s does not obtain its fat pointer from the length-reading helper" % b["key"], F.loc(b), tag)
         # ------------------------------------------------------------ identity of conversions (same allocation, count untouched)
         N = ptrclass.Norm(F)
-        for h, name, want in (("Arc", "protected_into_thin", ("mk", "ThinArc", ("stored", ("arg", 1), "p"))), ("Arc", "protected_from_thin", ("mk", "Arc", ("stored", ("arg", 1), "ptr"))),
-                              ("Arc", "into_thin", ("mk", "ThinArc", ("stored", ("arg", 1), "p"))), ("Arc", "from_thin", ("mk", "Arc", ("stored", ("arg", 1), "ptr")))):
+        fA, fT = N.handle_ptr_fields.get("Arc"), N.handle_ptr_fields.get("ThinArc")
+        for h, name, want in (("Arc", "protected_into_thin", ("mk", "ThinArc", ("stored", ("arg", 1), fA))), ("Arc", "protected_from_thin", ("mk", "Arc", ("stored", ("arg", 1), fT))),
+                              ("Arc", "into_thin", ("mk", "ThinArc", ("stored", ("arg", 1), fA))), ("Arc", "from_thin", ("mk", "Arc", ("stored", ("arg", 1), fT)))):
             for b in F.method(h, name):
                 n = N.ret(b["key"])
                 vecs = [p.vec for p in A.paths[b["key"]] if p.exit == "ret"]
